@@ -15,6 +15,7 @@ BUILTIN_ENUMS = {
     "Result": ["Ok", "Err"],
     "Ordering": ["Less", "Equal", "Greater"],
     "LocalResult": ["None", "Single", "Ambiguous"],
+    "ControlFlow": ["Continue", "Break"],
 }
 
 ITEM_KINDS = ["NumberItem", "PercentItem", "MoneyItem", "DurationItem", "TimeItem", "DateItem", "DateTimeItem", "DynamicTypeItem"]
@@ -74,14 +75,15 @@ class Path:
 
 
 class Outcome:
-    __slots__ = ("kind", "value", "path", "msg", "where")
+    __slots__ = ("kind", "value", "path", "msg", "where", "writes")
 
-    def __init__(self, kind, path, value=None, msg="", where=""):
+    def __init__(self, kind, path, value=None, msg="", where="", writes=None):
         self.kind = kind   # 'return' | 'panic'
         self.path = path
         self.value = value
         self.msg = msg
         self.where = where
+        self.writes = writes   # {argument index: new value} for &mut arguments that name a caller local
 
     def __repr__(self):
         return "Outcome(%s %s %s)" % (self.kind, self.value if self.kind == "return" else self.msg, self.where)
@@ -131,7 +133,7 @@ class SymV:
 
     def variants(self):
         if self.ty.startswith("dyn "):
-            return self.ex.item_kinds
+            return ITEM_KINDS
         n = self.enum_name()
         v = self.ex.enums.get(n)
         if v is None:
@@ -143,10 +145,11 @@ class SymV:
             self._tag = z3.Int("%s.tag" % self.path)
             self.ex.inputs["%s.tag" % self.path] = self._tag
             vs = self.variants()
-            self.ex.domain.append(z3.And(self._tag >= 0, self._tag < len(vs)))
+            ds = self.ex.discr_of(self.enum_name(), vs)
+            self.ex.domain.append(z3.Or([self._tag == d for d in ds]))
             for bad in self.ex.forbid_variants.get(self.enum_name(), ()):
                 if bad in vs:
-                    self.ex.domain.append(self._tag != vs.index(bad))
+                    self.ex.domain.append(self._tag != ds[vs.index(bad)])
         return self._tag
 
     def field(self, idx, ty):
@@ -184,6 +187,15 @@ class Exec:
         self.forbid_variants = {"TokenType": ["Variable", "Field"]}
         from . import models
         models.install(self)
+
+    def discr_of(self, enum_name, variants):
+        from . import load
+        d = load.DISCR.get(enum_name)
+        return d if d and len(d) == len(variants) else list(range(len(variants)))
+
+    def discr(self, enum_name, variant):
+        vs = self.enums[enum_name]
+        return self.discr_of(enum_name, vs)[vs.index(variant)]
 
     # ------------------------------------------------------------ symbols
     def fsym(self, name):
@@ -471,7 +483,8 @@ class Exec:
             return self.operand(parse_operand(s), env, fn)
         m = re.match(r"^&(?:raw (?:const|mut) )?(?:mut )?(.*)$", s)
         if m and not s.startswith("&&"):
-            return RefV(self.read_place(parse_place(m.group(1)), env, fn))
+            pl = parse_place(m.group(1))
+            return RefV(self.read_place(pl, env, fn), pl[1] if pl[0] == "local" else None)
         m = re.match(r"^discriminant\((.*)\)$", s)
         if m:
             return self.discriminant(self.read_place(parse_place(m.group(1)), env, fn))
@@ -528,7 +541,7 @@ class Exec:
         if isinstance(v, RefV):
             v = v.v
         if isinstance(v, EnumV):
-            return IntV(self.enums[v.enum].index(v.variant), 64, True)
+            return IntV(self.discr(v.enum, v.variant), 64, True)
         if isinstance(v, SymV):
             return IntV(v.tag(), 64, True)
         raise Unsupported("discriminant of %r" % (v,))
@@ -667,6 +680,13 @@ class Exec:
                 if not nxt.startswith("bb"):
                     continue  # diverging call returned?
                 env2 = dict(env)
+                if out.writes:
+                    for idx, newv in out.writes.items():
+                        a = args[idx]
+                        if isinstance(a, RefV) and a.slot:
+                            env2[a.slot] = newv
+                        else:
+                            raise Unsupported("write-back through a reference that is not a caller local")
                 if dst:
                     self.write_place(parse_place(dst), out.value, env2, fn)
                 yield from self.block(fn, nxt, env2, out.path, depth, steps)
@@ -711,6 +731,20 @@ class Exec:
             cands = [f for n, f in self.fns.items() if strip_generics(n) == plain]
             if len(cands) == 1:
                 target = cands[0]
+        if target is None:
+            # inherent method `Type::method` -> `module::<impl at file:..>::method` with a matching self type
+            m = re.match(r"^(\w+)::(\w+)$", plain)
+            if m:
+                ty, meth = m.group(1), m.group(2)
+                cands = []
+                for n, f in self.fns.items():
+                    if re.search(r"<impl at [^>]*>::%s$" % re.escape(meth), n):
+                        if f.args and norm_type(f.args[0][1]).split("<")[0].split("::")[-1] == ty:
+                            cands.append(f)
+                        elif f.ret and norm_type(f.ret).split("<")[0].split("::")[-1] == ty and not f.args:
+                            cands.append(f)
+                if len(cands) == 1:
+                    target = cands[0]
         if target is not None:
             yield from self.run(target, args, path, depth + 1)
             return
